@@ -2,7 +2,7 @@
 import os, sys, time
 import vf
 
-ALL_GENS = ["arith", "policy"]
+ALL_GENS = ["all"]
 
 
 def main():
